@@ -29,7 +29,7 @@ def register_range(a, b):
 class RegisterSet(set):
     def __repr__(self):
         reg_names = sorted(str(r) for r in self)
-        return ", ".join(reg_names)
+        return "{" + ", ".join(reg_names) + "}"
 
 
 R0 = LowArmRegister("R0", num=0)
